@@ -14,6 +14,7 @@ import (
 	"fmt"
 	"os"
 	"reflect"
+	"runtime/debug"
 	"sort"
 	"strconv"
 	"strings"
@@ -40,7 +41,7 @@ type VerifC04Case struct {
 
 // one line of the child's trace file
 type VerifTrace struct {
-	Kind string `json:"k"`             // armed | op | hit | done | closed
+	Kind string `json:"k"`             // armed | op | share | hit | done | closed
 	Op   int    `json:"op,omitempty"`  // op index
 	Name string `json:"n,omitempty"`   // hook point
 	Arg  string `json:"a,omitempty"`   // hook argument
@@ -94,6 +95,9 @@ type VerifC04Obs struct {
 	Tail    []VerifOpObs `json:"tail"`
 	Final   *VerifDump   `json:"final,omitempty"` // after the tail
 	InProg  int          `json:"inprog"`          // index of the write that was in progress when the child went away (-1: none)
+	NDone   int          `json:"ndone"`           // number of ops the child had finished
+	FirstOpen string     `json:"first_open,omitempty"` // the first NewStore after the child's death panicked: what was logged / raised
+	TailShares [][]string `json:"tail_shares"`    // per tail op: datasets in the order ExecuteTransaction processed them
 	RefA    *VerifDump   `json:"refA,omitempty"`  // crash-free run of the acknowledged prefix on a fresh store
 	RefB    *VerifDump   `json:"refB,omitempty"`  // ... plus the interrupted write
 }
@@ -113,7 +117,7 @@ func verifInProgress(tr []VerifTrace) int {
 }
 
 // crash-free reference: the same ops on a fresh store in this process
-func verifReference(c VerifC04Case, dir string, inprog int) (a *VerifDump, b *VerifDump) {
+func verifReference(c VerifC04Case, dir string, ndone int, inprog int) (a *VerifDump, b *VerifDump) {
 	_ = os.MkdirAll(dir, 0o755)
 	defer os.RemoveAll(dir)
 	h := &verifHub{dir: dir}
@@ -126,11 +130,11 @@ func verifReference(c VerifC04Case, dir string, inprog int) (a *VerifDump, b *Ve
 	}
 	times := make(map[int]int64)
 	tokens := make(map[string]int64)
-	n := len(c.Ops)
+	n := ndone
 	if inprog >= 0 {
 		n = inprog
 	}
-	for i := 0; i < n; i++ {
+	for i := 0; i < n && i < len(c.Ops); i++ {
 		if c.Ops[i].Op == "restart" {
 			continue
 		}
@@ -142,6 +146,21 @@ func verifReference(c VerifC04Case, dir string, inprog int) (a *VerifDump, b *Ve
 		b = verifDump(h, c)
 	}
 	return
+}
+
+// the frames of package server on the panicking goroutine's stack
+func verifStackTop() string {
+	lines := strings.Split(string(debug.Stack()), "\n")
+	out := []string{}
+	for i := 0; i+1 < len(lines); i++ {
+		if strings.Contains(lines[i], "internal/server.") && !strings.Contains(lines[i], "verifStackTop") {
+			out = append(out, strings.TrimSpace(lines[i])+" "+strings.TrimSpace(lines[i+1]))
+		}
+	}
+	if len(out) > 6 {
+		out = out[:6]
+	}
+	return strings.Join(out, " <- ")
 }
 
 func verifTraceAppend(f *os.File, t VerifTrace) {
@@ -191,6 +210,11 @@ func VerifC04Child(c VerifC04Case, dir string) {
 			}
 		}
 	})
+	h.shares = func(ds string) {
+		if ds != "core.Dataset" {
+			verifTraceAppend(tf, VerifTrace{Kind: "share", Arg: ds})
+		}
+	}
 	verifTraceAppend(tf, VerifTrace{Kind: "armed"})
 	times := make(map[int]int64)
 	tokens := make(map[string]int64)
@@ -453,8 +477,14 @@ func VerifC04Parent(c VerifC04Case, dir string, exit int) (obs VerifC04Obs) {
 	obs.Trace = verifReadTrace(dir)
 	obs.Tail = []VerifOpObs{}
 	obs.InProg = verifInProgress(obs.Trace)
+	for _, t := range obs.Trace {
+		if t.Kind == "done" {
+			obs.NDone++
+		}
+	}
 	if exit == 0 {
 		obs.InProg = -1
+		obs.NDone = len(c.Ops)
 	}
 	if b, err := os.ReadFile(dir + "/base.json"); err == nil {
 		var bd VerifDump
@@ -470,12 +500,49 @@ func VerifC04Parent(c VerifC04Case, dir string, exit int) (obs VerifC04Obs) {
 	defer func() {
 		if r := recover(); r != nil {
 			obs.Outcome = "reopen-panic"
-			obs.Detail = fmt.Sprint(r)
+			obs.Detail = fmt.Sprint(r) + " | " + verifStackTop()
+			// NewStore swallows the error of badger.Open: ask badger directly why it does not open
+			if db, err := badger.Open(badger.DefaultOptions(dir + "/store").WithLogger(nil)); err != nil {
+				obs.Detail += " | badger.Open: " + err.Error()
+			} else {
+				_ = db.Close()
+				obs.Detail += " | badger.Open alone succeeds"
+			}
 		}
 	}()
 	h := &verifHub{dir: dir}
-	h.open()
+	first := func() (msg string) {
+		defer func() {
+			if r := recover(); r != nil {
+				msg = fmt.Sprint(r)
+				if h.errlog != nil {
+					l := h.errlog.String()
+					if i := strings.Index(l, "\n"); i > 0 {
+						l = l[:i]
+					}
+					msg += " | hub error log: " + l
+				}
+				if msg == "" {
+					msg = "panic"
+				}
+			}
+		}()
+		h.open()
+		return ""
+	}()
+	if first != "" {
+		// NewStore swallowed an error of badger.Open and went on with a nil database; try once more, as a supervisor would
+		obs.FirstOpen = first
+		h = &verifHub{dir: dir}
+		h.open()
+	}
 	defer h.close()
+	var cur []string
+	h.shares = func(ds string) {
+		if ds != "core.Dataset" {
+			cur = append(cur, ds)
+		}
+	}
 	obs.After = verifDump(h, c)
 	times := make(map[int]int64)
 	tokens := make(map[string]int64)
@@ -483,17 +550,20 @@ func VerifC04Parent(c VerifC04Case, dir string, exit int) (obs VerifC04Obs) {
 		if op.Op == "retry" { // the client repeats the write that was never acknowledged
 			if obs.InProg < 0 {
 				obs.Tail = append(obs.Tail, VerifOpObs{Err: "nothing to retry"})
+				obs.TailShares = append(obs.TailShares, nil)
 				continue
 			}
 			op = c.Ops[obs.InProg]
 		}
 		lens := verifLens(h, op)
+		cur = nil
 		oo := verifDoOp(h, op, i, times, tokens)
 		oo.Lens = lens
 		obs.Tail = append(obs.Tail, oo)
+		obs.TailShares = append(obs.TailShares, cur)
 	}
 	obs.Final = verifDump(h, c)
 	h.close()
-	obs.RefA, obs.RefB = verifReference(c, dir+"-ref", obs.InProg)
+	obs.RefA, obs.RefB = verifReference(c, dir+"-ref", obs.NDone, obs.InProg)
 	return
 }
